@@ -266,7 +266,8 @@ def main():
     lean_map = {"tree_induction": ("Lemmas.lean", ["tree_induction", "all_nodes_below_root"]), "count-of-a-singleton-mask": ("Lemmas.lean", ["count_singleton"]),
                 "cumsum-of-nonnegatives": ("Lemmas.lean", ["cumsum_monotone"]), "count-of-two-marked-positions": ("Lemmas.lean", ["count_monotone", "count_two"]),
                 "traverse client rule": ("TraverseRule.lean", ["inv_of_reach", "traverse_rule_sound", "traverse_rule_sound_no_enter", "traverse_rule_sound_no_leave"]),
-                "whitespace-token lemma": ("Tokens.lean", ["token_split_unique", "tokens_unique"])}
+                "whitespace-token lemma": ("Tokens.lean", ["token_split_unique", "tokens_unique"]),
+                "prim cut-property": ("Prim.lean", ["prim_tree_is_minimum", "prim_tree_connected", "prim_tree_weight_eq", "prim_tree_total_is_least"])}
     used_files = {}
     for a_ in assumptions:
         if a_.startswith("assumed-lemma:"):
@@ -408,6 +409,8 @@ def main():
         undecided_obligations=[n for n, _ in undecided],
         samples=[dict(obligation=n, instances=len(results[n]), backend=results[n][0]["backend"]) for n in sorted(results)[:8]] or [dict(note="no obligations")],
         machinery_errors=errors,
+        slowest_obligations=[dict(obligation=n, slowest_instance_s=round(s, 2), instances=len(results[n])) for s, n in sorted(((max(r["seconds"] for r in rs), n) for n, rs in results.items() if rs), reverse=True)[:8]],
+        solver_budget_s=timeout_ms / 1000,
     )
     if regex_names:
         cov["regex_language_facts"] = [dict(obligation=n, verdict=results[n][0]["verdict"], backend=results[n][0]["backend"], seconds=round(results[n][0]["seconds"], 2),
